@@ -70,15 +70,13 @@ func StrictValiditySignatureCheck(atTs, validUntil spec.Timestamp) bool {
 	// Servers MUST use the lesser of valid_until_ts and 7 days into the
 	// future when determining if a key is valid.
 	// https://matrix.org/docs/spec/rooms/v5#signing-key-validity-period
-	sevenDaysFuture := time.Now().Add(time.Hour * 24 * 7)
-	validUntilTS := validUntil.Time()
-	if validUntilTS.After(sevenDaysFuture) {
-		validUntilTS = sevenDaysFuture
+	// The millisecond values are compared as the unsigned integers they are: Timestamp.Time()
+	// goes through int64, so a timestamp of 2^63 or more would wrap to an instant far in the past.
+	limit := spec.AsTimestamp(time.Now().Add(time.Hour * 24 * 7))
+	if validUntil < limit {
+		limit = validUntil
 	}
-	if atTs.Time().After(validUntilTS) {
-		return false
-	}
-	return true
+	return atTs <= limit
 }
 
 // NoStrictValidityCheck doesn't perform any validation of potentially expired signing keys.
